@@ -185,3 +185,179 @@ def _is_subsample_rows(interp, args, kwargs, node):
     ok = so is src or (so is not None and concrete_bool(_same_rows(interp, [so, src], {}, node).term) is True)
     n = interp.seq_len(x) if isinstance(x, VList) else interp.seq_len(x.cols[0][1])
     return VBool(z3.And(z3.BoolVal(bool(ok) and not getattr(x, "with_replacement", False)), n == to_int(m)))
+
+
+# ---- more opaque plumbing: slices, item assignment, pandas accessors ------------------------------------------
+import ast as _ast
+from .symex import Interp as _Interp
+
+
+def _ev_Slice(self, node, env):
+    parts = []
+    for p in (node.lower, node.upper, node.step):
+        parts.append(self.ev(p, env) if p is not None else NONE)
+    o = VObj("slice", opaque(self, "slice", parts, None, "slice").term)
+    o.parts = parts
+    return o
+
+
+_Interp.ev_Slice = _ev_Slice
+
+
+def _setitem(interp, base, idx, v, node):
+    if _is_opaque_arr(base) and base.tag in ("ndarray", "object"):
+        interp.check_mutable_target(base, node, "[...] =")
+        base.term = opaque(interp, "setitem", [VObj(base.tag, base.term), idx, v], None, base.tag).term
+        return True
+    return None
+
+
+E.HOOKS["setitem"].append(_setitem)
+
+
+def _index2(interp, base, idx, node):
+    if _is_opaque_arr(base) and base.tag in ("DataFrame", "Series", "ndarray", "object", "strings"):
+        if isinstance(idx, (VStr, VInt, VObj, VTuple)) or (isinstance(idx, VList) and isinstance(idx.content, ConcreteSeq)):
+            empty = getattr(base, "maybe_empty_1d", None)
+            if empty is not None and isinstance(idx, VTuple) and not interp.spec_mode:
+                # a 2-D index into what is a 1-D empty array when there are no rows
+                if interp.ctx.decide(empty, getattr(node, "lineno", "")):
+                    E.raise_py(interp, "IndexError", "too many indices for array: array is 1-dimensional", node)
+                base.maybe_empty_1d = None       # known to have rows from here on
+            tag = {"DataFrame": "Series"}.get(base.tag, base.tag)
+            return interp.born(opaque(interp, "getitem", [base, idx], None, tag))
+    return None
+
+
+E.HOOKS["index"].insert(0, _index2)
+
+
+def _getattr(interp, base, attr, node):
+    if _is_opaque_arr(base) and base.tag in ("Series", "DataFrame", "ndarray", "object"):
+        if attr in ("str", "iloc", "loc", "values", "index", "columns", "flat", "T"):
+            return interp.born(opaque(interp, f"attr.{attr}", [base], None, {"str": "strings", "iloc": "object", "loc": "object"}.get(attr, "ndarray")))
+    return None
+
+
+E.HOOKS["getattr"].append(_getattr)
+
+
+@method("ndarray", "get_indexer")
+def _get_indexer(interp, sv, args, kwargs, node):
+    return interp.born(opaque(interp, "Index.get_indexer", [sv] + list(args), kwargs, "ndarray"))
+
+
+_list_builtin = E.BUILTINS["list"]
+
+
+def _list2(interp, args, kwargs, node):
+    if args and _is_opaque_arr(args[0]):
+        return interp.born(opaque(interp, "list", args, None, "ndarray"))
+    return _list_builtin(interp, args, kwargs, node)
+
+
+E.BUILTINS["list"] = _list2
+
+_len_hook_prev = None
+
+
+def _len_opaque(interp, v, node):
+    if _is_opaque_arr(v) and v.tag in ("ndarray", "DataFrame", "Series", "object"):
+        n = opaque(interp, "len", [v], None, "int", rsort=z3.IntSort())
+        interp.ctx.assume(n >= 0)
+        if getattr(v, "maybe_empty_1d", None) is not None:
+            interp.ctx.assume((n == 0) == v.maybe_empty_1d, "extern:len(numpy.array(list)) is the number of list elements")
+        return VInt(n)
+    return None
+
+
+E.LEN_HOOKS.append(_len_opaque)
+
+pure("pwseqdist.apply_pairwise_sparse", "ndarray")
+
+_np_asarray_prev = E.EXTERNS["numpy.asarray"]
+
+
+def _np_array_bag(interp, args, kwargs, node):
+    v = args[0]
+    if isinstance(v, VList) and isinstance(v.content, CompBag):
+        # np.array(list of k-tuples): shape (n, k) -- but shape (0,) for an empty list
+        if not hasattr(v, "_id_term"):
+            E._INST[0] += 1
+            v._id_term = z3.Const(f"bag:{E._INST[0]}", OBJ)
+        r = VObj("ndarray", opaque(interp, "numpy.array", [VObj("object", v._id_term)], None, "ndarray").term)
+        if v.content.sites:
+            empty = z3.Not(z3.Or(*[z3.Exists(s.all_vars(), s.full_cond()) if s.all_vars() else s.full_cond()
+                                   for s in v.content.sites]))
+        else:
+            empty = z3.BoolVal(True)
+        r.maybe_empty_1d = empty
+        r.rows_of = v
+        interp.ctx.assumed.add("extern:numpy.array(list of k-tuples) has shape (n, k) for n > 0 and shape (0,) for the empty list")
+        return interp.born(r)
+    return _np_asarray_prev(interp, args, kwargs, node)
+
+
+E.EXTERNS["numpy.array"] = _np_array_bag
+
+
+@extern("numpy.empty")
+def _np_empty2(interp, args, kwargs, node):
+    from .ext_numpy import np_empty
+    shp = args[0]
+    if isinstance(shp, VTuple) and all(concrete_int(x) is not None for x in shp.items) and concrete_int(shp.items[0]) == 0:
+        return interp.born(opaque(interp, "numpy.empty", args, kwargs, "ndarray"))
+    return np_empty(interp, args, kwargs, node)
+
+
+@S.spec("is_empty_result")
+def _is_empty_result(interp, args, kwargs, node):
+    v = args[0]
+    if isinstance(v, VObj) and v.term is not None and z3.is_app(v.term) and v.term.decl().name().startswith("numpy.empty"):
+        return VBool(True)
+    return VBool(False)
+
+
+def _series_attr(interp, base, attr, node):
+    if isinstance(base, VList) and base.kind == "Series" and isinstance(base.content, SymSeq):
+        if attr == "str":
+            o = VObj("strings")
+            o.of = base
+            return o
+        if attr in ("iloc", "loc", "values"):
+            return interp.born(opaque(interp, f"attr.{attr}", [base], None, "object"))
+    return None
+
+
+E.HOOKS["getattr"].insert(0, _series_attr)
+
+
+def _str_slice(interp, base, lo, hi, st, node):
+    if isinstance(base, VObj) and base.tag == "strings" and getattr(base, "of", None) is not None:
+        src = base.of
+        interp.ctx.assumed.add("extern:pandas Series.str[a:b] slices every string of the Series like Python's s[a:b]")
+        r = VList(SymSeq(src.content.length, lambda k: interp.slice(src.content.at(k), lo, hi, st, node), src.content.elem_kind), "Series")
+        r.labels = None
+        r.sid = f"strslice({src.sid},{lo!r},{hi!r})"
+        return interp.born(r)
+    if _is_opaque_arr(base):
+        return interp.born(opaque(interp, "getslice", [base, lo if lo is not None else NONE, hi if hi is not None else NONE], None, base.tag))
+    return None
+
+
+E.HOOKS["slice"].append(_str_slice)
+
+
+@method("list", "get_indexer")
+def _list_get_indexer(interp, sv, args, kwargs, node):
+    """Index.get_indexer(labels): positions of the labels in the index (-1 for absent labels)"""
+    return interp.born(opaque(interp, "Index.get_indexer", [VObj("object", z3.Const(f"index:{id(sv) % 100000}", OBJ))] + list(args), kwargs, "ndarray"))
+
+
+@S.spec("bag_is_empty")
+def _bag_is_empty(interp, args, kwargs, node):
+    v = args[0]
+    bag = S.bag_of(interp, v)
+    if not bag.sites:
+        return VBool(True)
+    return VBool(z3.Not(z3.Or(*[z3.Exists(s.all_vars(), s.full_cond()) if s.all_vars() else s.full_cond() for s in bag.sites])))
